@@ -754,12 +754,15 @@ pub struct WithEpilogue<D> {
     pub from_step: Option<usize>,
     /// after going idle: subscribe, publish QoS 1 and receive an inbound QoS 1 publish
     pub round_trip: bool,
+    /// a behaving broker may still announce limits: one continuation in three announces the
+    /// smallest Maximum Packet Size under which everything the session holds still fits
+    pub tight_limits: bool,
     rt: std::collections::VecDeque<Step>,
 }
 
 impl<D> WithEpilogue<D> {
     pub fn new(inner: D, max_polls: usize) -> Self {
-        WithEpilogue { inner, stage: 0, polls: 0, max_polls, from_step: None, round_trip: false, rt: Default::default() }
+        WithEpilogue { inner, stage: 0, polls: 0, max_polls, from_step: None, round_trip: false, tight_limits: false, rt: Default::default() }
     }
 }
 
@@ -814,7 +817,18 @@ impl<D: Driver> Driver for WithEpilogue<D> {
                 2 => {
                     self.stage = 3;
                     // resume iff the client is going to ask for it
-                    return Some(Step::Connect(benign_connect(v.snap.session_present)));
+                    let mut c = benign_connect(v.snap.session_present);
+                    if self.tight_limits {
+                        let lens: Vec<usize> = v.snap.tx.retained.iter().map(|e| e.len).collect();
+                        let pick = lens.iter().sum::<usize>() + v.snap.tx.release.len() + v.snap.tx.control.len();
+                        if pick % 3 == 1 {
+                            let limit = lens.iter().copied().max().unwrap_or(0).max(5) as u32;
+                            if let ConnackSpec::Normal { props, .. } = &mut c.connack {
+                                props.push(Prop::MaximumPacketSize(limit));
+                            }
+                        }
+                    }
+                    return Some(Step::Connect(c));
                 }
                 3 => {
                     let last = v.log.ops.last();
